@@ -442,11 +442,17 @@ def _alarm(signum, frame):
 def _site(e):
     """innermost frame of the traceback that lies in the repository: 'gfapy/x/y.py:function'"""
     root = os.path.abspath(REPO) + os.sep
-    site = ""
-    for fs in traceback.extract_tb(e.__traceback__):
-        fn = os.path.abspath(fs.filename)
-        if fn.startswith(root):
-            site = "%s:%s" % (fn[len(root):], fs.name)
+    site, seen = "", 0
+    while e is not None and seen < 10:     # gfapy re-raises with added context: prefer the original raise
+        here = ""
+        for fs in traceback.extract_tb(e.__traceback__):
+            fn = os.path.abspath(fs.filename)
+            if fn.startswith(root):
+                here = "%s:%s" % (fn[len(root):], fs.name)
+        if here:
+            site = here
+        e = e.__cause__ or e.__context__
+        seen += 1
     return site
 
 
@@ -473,7 +479,7 @@ class Runner:
         except BaseException as e:  # noqa
             signal.setitimer(signal.ITIMER_REAL, 0)
             cls = project.errclass(e)
-            if cls == "FOREIGN":
+            if cls == "FOREIGN" and len(self.notes) < 50:
                 self.notes.append((type(e).__name__, _site(e)))
             return cls, None
         finally:
